@@ -333,3 +333,19 @@ LEVEL_TEXT += _ADD11
 _ADD22 = ' Borrowed: R09.6, R13.3, R14.4, R03.1.'
 EXPLANATION += _ADD22
 LEVEL_TEXT += _ADD22
+
+
+_run_before_r5 = run
+
+
+def run(repo, rep, tier):  # noqa: F811 -- round-5 shape rules appended to the rules above
+    _run_before_r5(repo, rep, tier)
+    if getattr(rep, "borrowed", False):
+        return
+    from ..core import round5 as _r5
+    _r5.codec_wrapper_shape(repo, rep, "R15.11")
+
+
+_ADDR5B = " R15.11: the codec encode / decode wrapper returns exactly the registry expression of the root shape (assigned once from <Registry>.get(ValueSpec(type=shape_type, expression='value', could_be_none=could_be_none))), wrapped once in the post-encoder when there is one; nothing is spliced around it."
+EXPLANATION += _ADDR5B
+LEVEL_TEXT += _ADDR5B
